@@ -1,7 +1,8 @@
 """R-ERRFLOW: a failing callee makes its caller fail (C12 and the properties of the respective callers; after Engler et al.).
 
 For every call site whose callee returns H3Error and whose result is used, and for every non-zero code the callee can return
-(the value sets of R-RET), the caller is explored from the call with the result assumed to be that code: no path may end in `return E_SUCCESS` unless it passed a condition that is computed
+(the value sets of R-RET), the caller is explored from the call with the result of THIS execution assumed to be that code (a later
+execution of the same call in a loop may return any code of the callee, success included): no path may end in `return E_SUCCESS` unless it passed a condition that is computed
 from the assumed result and that the engine cannot interpret exactly (conditions independent of the result, e.g. loop bounds, do not matter).  The rule was inferred from the code base: of 89 such call sites one
 tolerates a code on purpose; that (caller, callee, code) triple is frozen below with its reason.  A new tolerant site is a
 VIOLATION that names the call, the code and the path to the successful return."""
@@ -36,7 +37,9 @@ def check(ctx, m, cfg, ret_sets, callers=None):
             bad = None
             for c in codes:
                 ncodes += 1
-                ex = Explorer(f, assume_def={i.id: explore.const(c, 32)}, start_block=i.block.idx)
+                ex = Explorer(f, start_block=i.block.idx)
+                # this execution of the call fails with c; a later execution of the same call (next loop iteration) may return anything the callee can
+                ex.assume_once[i.id] = (explore.const(c, 32), [explore.const(v, 32) for v in sorted(ret_sets.get(i.callee, {0}))])
                 ex.run()
                 for s, t, av in ex.rets:
                     if av is not None and singleton(av) == 0 and not s.env.get(("flag", "approx_dep")):
